@@ -5,11 +5,11 @@ package main
 
 func init() {
 	register("C01", "Decided: register / no-operand / condition-code / hand-written-form tables against the SDM, prefix predicates, mode configuration of every operand object, immediate width provenance, prefix independence from immediate magnitude, emission-time mode. Not decided: that form selection picks the right form for a concrete operand combination.",
-		ruleT1, ruleT1e, ruleT2, ruleT3, ruleT4d, ruleT5, ruleF8size, ruleP3, ruleF1, ruleF7, ruleE5, ruleI1, ruleI1s, ruleE1, ruleE1b, ruleE3, ruleE3s, ruleT18acc, ruleS66, ruleM7, ruleT5u, ruleU8p, ruleT6, ruleH7k)
+		ruleT1, ruleT1e, ruleT2, ruleT3, ruleT4d, ruleT5, ruleF8size, ruleP3, ruleF1, ruleF7, ruleE5, ruleI1, ruleI1s, ruleE1, ruleE1b, ruleE3, ruleE3s, ruleT18acc, ruleS66, ruleM7, ruleT5u, ruleU8p, ruleT6, ruleH7k, ruleZ18)
 	register("C02", "Decided: ModR/M and SIB tables, special cases, displacement thresholds, SIB presence, consumption of every parsed address component, operator handling in the operand grammar, 67h predicate, agreement of the pass-1 displacement/SIB sizing. Not decided: the path-sensitive composition of the calculator's branches.",
 		ruleT6, ruleQ2, ruleE8, ruleG2, ruleT1, ruleT1e, ruleI1, ruleP3, ruleZ3, ruleZ3b, ruleD2, ruleK18p, ruleF8size, ruleM2, ruleE1, ruleE1b, ruleE3, ruleE3s, ruleS16l)
 	register("C03", "Decided: advance-iff-emit on every handler path, constant size rules vs emitter lengths, size-model terms and prefix predicates, data-directive lockstep, label/$ = LOC, pass-2 hand-over. Not decided: equality of the two size computations on every operand value.",
-		ruleP8, ruleW3, ruleS3, ruleS3e, ruleF8size, ruleZ3, ruleP7, ruleP7e, ruleF2, ruleN5, ruleP5, ruleP3, ruleF8a, ruleM2, ruleZ3b, ruleO3, ruleC2P, ruleF8o, ruleS3j, ruleZ3c, ruleF6, ruleE1, ruleE1b, ruleE3, ruleE3s, ruleU8p, ruleS3f, ruleS16l)
+		ruleP8, ruleW3, ruleS3, ruleS3e, ruleF8size, ruleZ3, ruleP7, ruleP7e, ruleF2, ruleN5, ruleP5, ruleP3, ruleF8a, ruleM2, ruleZ3b, ruleO3, ruleC2P, ruleF8o, ruleS3j, ruleZ3c, ruleF6, ruleE1, ruleE1b, ruleE3, ruleE3s, ruleU8p, ruleS3f, ruleS16l, ruleA18)
 	register("C04", "Decided: condition codes, opcode bytes, length-adjusted displacement, range test on the narrowed value, little-endian fields, origin in the current address, mode guards. Not decided: that pass 1 leaves the target where the emitter assumes it.",
 		ruleT3, ruleT3k, ruleBranch, ruleI1, ruleF6, ruleS3, ruleS3e, ruleS3j, ruleE1, ruleE1b, ruleE3, ruleE3s, ruleU8p, ruleU7, ruleS3f)
 	register("C05", "Decided: per-clause lockstep of size and emitted elements, lane order, decimal hand-off, RESB flow, non-emitting statements, every operand clause contributes or diagnoses, ALIGNB address basis.",
@@ -37,9 +37,9 @@ func init() {
 	register("C16", "Decided: the origin chain from ORG to every address computation.",
 		ruleF6, ruleP5, ruleY16, ruleBranch, ruleSetters, ruleC2P, ruleP7, ruleW3, ruleN5, ruleO3, ruleW4o, ruleS3j, ruleS16l)
 	register("C17", "Decided: default modes, BITS table, mode configuration of every operand object, emission-time mode vs traversal-time writer (known finding).",
-		ruleE5, ruleModeDefaults, ruleM17w, ruleV17, ruleO3, ruleC9cfg, ruleZ3c, ruleF8size, ruleP3, ruleBranch, ruleSetters, ruleE3)
+		ruleE5, ruleModeDefaults, ruleM17w, ruleV17, ruleO3, ruleC9cfg, ruleZ3c, ruleF8size, ruleP3, ruleBranch, ruleSetters, ruleE3, ruleA18, ruleT1e)
 	register("C18", "Decided: comparator orientation/order, sign-extendable set, canonical signed-8 tests, shared table query flags, hand-written short forms. Not decided: minimality for every operand combination.",
-		ruleF8c, ruleF8irr, ruleF8a, ruleI1, ruleI1s, ruleT5, ruleK18, ruleA18, ruleT18acc, ruleT5u, ruleE1, ruleE1b, ruleE3, ruleE3s, ruleF1, ruleF8size, ruleF8q, ruleD2, ruleK18p, ruleT6)
+		ruleF8c, ruleF8irr, ruleF8a, ruleI1, ruleI1s, ruleT5, ruleK18, ruleA18, ruleT18acc, ruleT5u, ruleE1, ruleE1b, ruleE3, ruleE3s, ruleF1, ruleF8size, ruleF8q, ruleD2, ruleK18p, ruleT6, ruleZ18)
 	register("C19", "Decided: exit-code table, open flags, no failing exit after a successful write. Not decided: the Shift_JIS / UTF-8 decoding clause.",
 		ruleT9, ruleP6, ruleO19, ruleL19)
 }
